@@ -445,7 +445,9 @@ def start_tlc(chk: core.Check, tier: dict, parts) -> dict:
 
     def one(item):
         key, (module, cfg, wd, dot) = item
-        return key, tla.run_tlc(module, cfg, wd, dump_dot=dot, workers=4)
+        # HOF bounds its chains with a guard on TLCGet("level"): one TLC worker = strict breadth-first
+        # order, so the set of expanded frontier states (and every count) is the same on every run
+        return key, tla.run_tlc(module, cfg, wd, dump_dot=dot, workers=1 if module == 'HOF' else 4)
     with ThreadPoolExecutor(max_workers=4) as ex:
         return dict(ex.map(one, jobs.items()))
 
